@@ -10,7 +10,7 @@ OUTSIDE = 'more than 3 points/channels/sub-frames/frames; strings longer than 17
 ASSUMPTIONS = ['POINT:RATE=100 and ANALOG:RATE=100*S are concrete (they fix loop trip counts)', 'names are printable non-space ASCII; descriptions printable ASCII']
 
 def base(**kw):
-    c = dict(P=2, C=1, S=2, F=2, order=0, ex_type=0, ex_group=0, ex_ndim=0, ex_n=0, ex_nlen=0, ex_dlen=0, ex_slen=0, symnames=0, norate=0, pad=-1)
+    c = dict(P=2, C=1, S=2, F=2, order=0, ex_type=0, ex_group=0, ex_ndim=0, ex_n=0, ex_nlen=0, ex_dlen=0, ex_slen=0, symnames=0, norate=0, pad=-1, point_scale=0)
     c.update(kw); return c
 
 def ex_variants(tier):
@@ -56,6 +56,8 @@ def jobs(tier, seed):
     # alignment sweep: the parameter section length goes through all 512 residues modulo the block size (0.3 s per save/load);
     # the data floats are free, so the byte that follows the parameter section is any value
     for L in range(0, 520): J(P=1, C=0, S=1, F=1, order=L % 3, pad=L)
+    # POINT:SCALE set by the user to any float (it is content like any other parameter)
+    for order in (0, 1, 2): J(P=2, C=1, S=1, F=1, order=order, point_scale=1)
     # symbolic point/channel names
     J(P=2, C=2, S=1, F=1, order=0, symnames=1)
     if tier == 'thorough':
